@@ -35,7 +35,11 @@ AllRoots == {RootOf(S) : S \in State}
 (* executing a block: the new nodes, the declared root, their number *)
 Changes(S, T) == NodesOf(T) \ NodesOf(S)
 Block(h, S, T) == [hash |-> h, prev |-> S, root |-> RootOf(T), count |-> Cardinality(Changes(S, T))]
-Honest(h, S, T) == [block |-> h, root |-> RootOf(T), nodes |-> Changes(S, T)]
+(* a change set: block = the block hash it names, root = the root it declares when it is applied, *)
+(* rroot = the root it declared when it was received (PartialState.ComputeProperties checks the   *)
+(* nodes against THAT one and caches the computed root: GetRoot()); the two differ only for a set  *)
+(* that is relabelled after receipt (class "relabel").                                             *)
+Honest(h, S, T) == [block |-> h, root |-> RootOf(T), rroot |-> RootOf(T), nodes |-> Changes(S, T)]
 
 -----------------------------------------------------------------------------
 VARIABLES chain,   \* <<S0, S1, S2>>: genesis state and the states after block 1 and block 2
@@ -55,27 +59,34 @@ Tampered(t, i) ==
     [] t = "drop"      -> {[b EXCEPT !.nodes = @ \ {n}] : n \in b.nodes}
     [] t = "extra"     -> {[b EXCEPT !.nodes = @ \cup {n}] : n \in (AllLeaves \cup {RootOf(chain[i])}) \ b.nodes}
     [] t = "alter"     -> {[b EXCEPT !.nodes = (@ \ {n}) \cup {Leaf(n.k, v)}] : n \in leaves, v \in Val} \ {b}
-    [] t = "wrongroot" -> {[b EXCEPT !.root = r] : r \in AllRoots \ {b.root}}
+    [] t = "wrongroot" -> {[b EXCEPT !.root = r, !.rroot = r] : r \in AllRoots \ {b.root}}
     [] t = "wronghash" -> {[b EXCEPT !.block = h] : h \in {Hash(1), Hash(2), 99} \ {b.block}}
     [] t = "replay"    -> {Bsc(3 - i)}
     \* drop a changed leaf and fill the gap with an unchanged node the new root refers to (count kept)
     [] t = "swap"      -> {[b EXCEPT !.nodes = (@ \ {n}) \cup {m}] : n \in leaves, m \in b.root.kids \ b.nodes}
+    \* a set that is consistent when received - the published set of a competing execution of block i
+    \* (same previous state, another result) or the other block's set - and is given this block's hash
+    \* and declared root afterwards: its cached computed root is not the root it now declares
+    [] t = "relabel"   -> {[c EXCEPT !.block = b.block, !.root = b.root] :
+                             c \in {Honest(99, chain[i], T) : T \in State \ {chain[i], chain[i + 1]}} \cup {Bsc(3 - i)}}
 
 (* receipt: PartialState.ComputeProperties. The set must be non-empty, every node must hang under *)
 (* one node of the set (MemoryNodeDB.ComputeRoot + validate), and that node is the declared root.  *)
 RecvOK(c) ==
   /\ c.nodes # {}
   /\ \E r \in c.nodes : /\ \A n \in c.nodes \ {r} : n \in r.kids
-                        /\ r = c.root
+                        /\ r = c.rroot
 
-(* Block.ApplyBlockStateChange: block hash, declared root, node count (the final comparison of the *)
-(* merged root with the block's root repeats the second check).                                   *)
+(* Block.ApplyBlockStateChange: block hash, declared root, node count, then MergeDB with the root  *)
+(* cached at receipt and the comparison of the merged root with the block's root (it repeats the   *)
+(* second check unless the set was relabelled after receipt).                                      *)
 ApplyOK(b, c) ==
   /\ c.block = b.hash
   /\ c.root = b.root
   /\ Cardinality(c.nodes) = b.count
+  /\ c.rroot = b.root
 
-Merge(b, c) == [root |-> c.root, store |-> NodesOf(b.prev) \cup c.nodes]
+Merge(b, c) == [root |-> c.rroot, store |-> NodesOf(b.prev) \cup c.nodes]
 
 Lookup(st, k) ==
   IF \E n \in st.root.kids : n.k = k
@@ -111,10 +122,12 @@ C28_HonestReproduces ==
      /\ local.root = RootOf(Target)
      /\ \A k \in Key : Lookup(local, k) = Target[k]
 
-(* a set whose block hash, root or node count does not match is rejected *)
+(* a set whose block hash, root (declared, or the one its nodes were found to compute to) or node *)
+(* count does not match is rejected                                                              *)
 C28_MismatchRejected ==
   Synced => LET b == Blk(last.i) IN
-     (last.c.block # b.hash \/ last.c.root # b.root \/ Cardinality(last.c.nodes) # b.count) => ~last.accepted
+     (last.c.block # b.hash \/ last.c.root # b.root \/ ~last.recv \/ last.c.rroot # b.root
+        \/ Cardinality(last.c.nodes) # b.count) => ~last.accepted
 
 (* a rejected set leaves the local state untouched *)
 C28_RejectedUntouched == (Synced /\ ~last.accepted) => local = NoState
